@@ -150,6 +150,23 @@ CLAIMED.update({
             "DESIGN.md 5 C31"),
 })
 
+CLAIMED.update({
+    "C21": ("model_checking",
+            "Guards.tla: the recursion guards and a guarded walker as a stack machine; depth bound, no cycle followed, correct outcome and "
+            "termination model-checked over every small graph; TLC-emitted shape descriptors around every internal limit plus random "
+            "structure combinations run through the whole pipeline in a child process with a 1 MiB stack; TLC monitor requires no "
+            "crash, sorted diagnostics and the prescribed limit diagnostics.",
+            "Stack fit is observed, not modelled; the family -> limit table is recorded in MC_GuardShapes.tla.",
+            "TLA+ model of the recursion guards; TLC-generated adversarial shapes replayed in isolated processes; TLC monitor",
+            "DESIGN.md 5 C21"),
+    "C25": ("model_checking",
+            "IntroDepth.tla: reference (expanded paths) and the memoised algorithm; their equality and invariance under inlining are "
+            "model-checked on every operation of the bounded shape; each operation is rendered and passed to check_max_depth.",
+            "List fields rendered as interfaces/possibleTypes on __Type.",
+            "TLA+ reference + implementation-shaped model compared by TLC; exhaustive bounded enumeration replayed",
+            "DESIGN.md 5 C25"),
+})
+
 NOT_APPLICABLE = {}
 
 ALL = ["C%02d" % i for i in range(1, 34)]
